@@ -202,6 +202,29 @@ def wireStep (st : Option Rig) (tok : List String) (impl : String) : Option Rig 
       let p : Pki :=
         { srvCertIssuer := some 1, srvCertDNS := san.1, srvCertIPs := san.2, cliRootCA := cca
         , cliCertIssuer := if ccert = 0 then none else some ccert, srvClientCA := 1 }
+      -- `term=<issuer><d><i>`: a TLS terminator in front of frps presents that certificate (wss only)
+      let term : Option (Option Terminator) :=
+        match wireKV rest "term" with
+        | none => some none
+        | some v =>
+          match v.toList with
+          | [ca, d, i] =>
+            match sanDNS (d.toNat - 48), sanIP (i.toNat - 48) with
+            | some a, some b => some (some { issuer := ca.toNat - 48, dns := a, ips := b })
+            | _, _ => none
+          | _ => none
+      match term with
+      | none => (st, .bad "cert term")
+      | some (some t) =>
+        if pr != .wss then (st, .bad "cert term without wss") else
+        let up := wssSessionVia s c p t
+        let m := if up then (if tokOk then "up=1" else "up=0:loginerr") else "up=0"
+        let interpreted := impl == "up=1" || impl == "up=0:loginerr"
+        -- property: an answer from frps only for a client whose tls.Config accepted the terminator's
+        -- identity — with a trusted CA: a certificate of that CA valid for the (given or defaulted)
+        -- name, whatever transport.tls.enable says (`interpretedOkWss_identity`)
+        (st, verdictOf m impl (some (C05.interpretedOkWss s c p t interpreted)))
+      | some none =>
       let up := sessionUpOn s c p
       -- a Login with a wrong key that reaches `handleConnection` is answered by LoginResp{Error}
       let m := if up then (if tokOk then "up=1" else "up=0:loginerr") else "up=0"
@@ -283,7 +306,125 @@ def wireStep (st : Option Rig) (tok : List String) (impl : String) : Option Rig 
     | _, _, _, _, _, _, _ => (st, .bad "wire")
   | _ => (st, .bad "op")
 
-def wire : Engine := { State := Option Rig, init := none, step := wireStep }
+/-! the configuration as written: ops `cfgload`, `wstart`, `wobs` (harness/eng_wire_config.go) -/
+
+open WireConfig in
+def parsePxType (t : String) : Option PxType := PxType.all.find? (fun x => x.name == t)
+
+open WireConfig in
+def parsePlugin (t : String) : Option Plugin := Plugin.all.find? (fun x => x.name == t)
+
+/-- one proxy of a `wstart` rig: `<type>:<plugin>:e<0|1>c<0|1>` -/
+structure CPx where
+  type : WireConfig.PxType
+  plugin : WireConfig.Plugin
+  enc : Bool
+  comp : Bool
+
+def parseSpec (t : String) : Option CPx :=
+  match t.splitOn ":" with
+  | [ty, pl, f] =>
+    match parsePxType ty, parsePlugin pl, f.toList with
+    | some ty, some pl, ['e', e, 'c', c] => some { type := ty, plugin := pl, enc := e == '1', comp := c == '1' }
+    | _, _, _ => none
+  | _ => none
+
+/-- `p0=… p1=… …` -/
+def specsFrom (toks : List String) : Nat → Nat → Option (List CPx)
+  | 0, _ => some []
+  | fuel + 1, i =>
+    match wireKV toks s!"p{i}" with
+    | none => some []
+    | some v =>
+      match parseSpec v, specsFrom toks fuel (i + 1) with
+      | some x, some xs => some (x :: xs)
+      | _, _ => none
+
+structure CRig where
+  tls : Bool
+  pxs : List CPx
+
+open WireConfig in
+/-- harness `wcConv`: is there a conversation that reaches the local service of such a proxy? -/
+def hasConv (t : PxType) (p : Plugin) : Bool :=
+  match t with
+  | .udp | .sudp => p == .none
+  | .http => [Plugin.none, .unixDomainSocket, .http2http, .http2https, .staticFile].contains p
+  | .https => [Plugin.none, .tls2raw, .https2http, .https2https].contains p
+  | .tcp | .tcpmux | .stcp => p != .virtualNet
+  | _ => false
+
+def writtenBase (x : CPx) : WireConfig.Base :=
+  { name := Str.ofString "w", type := x.type, localIP := [], limitMode := [], enc := x.enc, comp := x.comp
+  , plugin := x.plugin, enableHTTP2 := none }
+
+structure WState where
+  rig : Option Rig := none
+  crig : Option CRig := none
+
+def two (a b : Bool) : String := bit a ++ bit b
+
+def wireStep2 (st : WState) (tok : List String) (impl : String) : WState × Verdict :=
+  match tok with
+  | ["reset"] => ({}, verdictOf "-" impl)
+  | "cfgload" :: rest =>
+    match wireKV rest "fmt", wireBool rest "pfx", (wireKV rest "type").bind parsePxType,
+          (wireKV rest "plugin").bind parsePlugin, wireKV rest "enc", wireKV rest "comp", wireKV rest "mode",
+          wireBool rest "ip" with
+    | some _, some pfx, some ty, some pl, some enc, some comp, some mode, some ip =>
+      -- what the operator wrote (a flag that is not written is false)
+      let w : WireConfig.Base :=
+        { name := Str.ofString "w0", type := ty, localIP := if ip then WireConfig.defaultLocalIP else []
+        , limitMode := if mode == "c" then WireConfig.modeClient else if mode == "s" then WireConfig.modeServer else []
+        , enc := enc == "1", comp := comp == "1", plugin := pl, enableHTTP2 := none }
+      let user : Str := if pfx then Str.ofString "c05u" else []
+      let l := WireConfig.loaded user w
+      let m := WireConfig.marshal l
+      let sv := WireConfig.serverCfgOf m
+      let h2 := match l.enableHTTP2 with | none => "d" | some b => bit b
+      let r := s!"l={two l.enc l.comp};m={two m.useEncryption m.useCompression};s={two sv.enc sv.comp};name={hx l.name};ip={hx l.localIP};mode={hx l.limitMode};h2={h2}"
+      -- property: written useEncryption ⇒ the loaded configurer, the NewProxy message and frps's
+      -- configurer all say useEncryption (`writtenKeptOk`)
+      let encOf (k : String) : Option Bool := (wireResKV impl k).bind fun v => v.toList.head?.map (· == '1')
+      let prop := match encOf "l", encOf "m", encOf "s" with
+        | some a, some b, some c => some (C05.writtenKeptOk w.enc a b c)
+        | _, _, _ => none
+      (st, verdictOf r impl prop)
+    | _, _, _, _, _, _, _, _ => (st, .bad "cfgload")
+  | "wstart" :: rest =>
+    match wireBool rest "tls", specsFrom rest 64 0 with
+    | some tls, some pxs =>
+      -- a rig that did not come up completely is dropped by the harness: no observation on it
+      let crig : Option CRig := if impl == "up=1" then some { tls := tls, pxs := pxs } else none
+      ({ st with crig := crig, rig := none }, verdictOf "up=1" impl)
+    | _, _ => (st, .bad "wstart")
+  | "wobs" :: rest =>
+    match st.crig, wireNat rest "k" with
+    | none, _ => (st, verdictOf "norig" impl)
+    | some rg, some k =>
+      match rg.pxs[k]? with
+      | none => (st, verdictOf "badk" impl)
+      | some x =>
+        if !hasConv x.type x.plugin then (st, verdictOf "na" impl) else
+        let w := writtenBase x
+        let implAlive : Option Bool := match impl.toList with | ['a', a, 'p', _] => some (a == '1') | _ => none
+        let implSeen : Option Bool := match impl.toList with | ['a', _, 'p', x] => some (x == '1') | _ => none
+        let clearModel := Wire.payloadClear (WireConfig.pathOfWritten rg.tls [] w)
+        -- (a conversation that is the user's own TLS carries the marker in its ClientHello too: every
+        -- conversation has payload bytes that are readable unless a layer of frp covers them)
+        -- with compression and no cipher on a clear transport, or after a broken conversation, the
+        -- observed bit is taken
+        let seen :=
+          if (x.comp && !x.enc && !rg.tls) || implAlive == some false then implSeen.getD clearModel
+          else clearModel
+        -- property: TLS on the transport, or useEncryption in the WRITTEN configuration ⇒ marker absent
+        (st, verdictOf s!"a1p{bit seen}" impl (implSeen.map (C05.reloadObsOk rg.tls x.enc)))
+    | _, none => (st, .bad "wobs")
+  | _ =>
+    let r := wireStep st.rig tok impl
+    ({ st with rig := r.1, crig := match tok with | "rstart" :: _ => none | _ => st.crig }, r.2)
+
+def wire : Engine := { State := WState, init := {}, step := wireStep2 }
 
 end Engines
 end Frp
